@@ -10,7 +10,9 @@ use std::process::{Command, Stdio};
 use std::sync::mpsc;
 use std::time::{Duration, Instant};
 
-const VERIF: &str = "/verif";
+fn verif_home() -> String {
+    std::env::var("SIMCTL_HOME").unwrap_or_else(|_| "/verif".to_owned())
+}
 
 #[derive(Clone, Debug, Serialize, Deserialize)]
 struct VMsg {
@@ -286,7 +288,7 @@ pub struct Known {
 
 pub fn load_known() -> Vec<Known> {
     let mut v = Vec::new();
-    let text = std::fs::read_to_string(format!("{}/known_findings.txt", VERIF)).unwrap_or_default();
+    let text = std::fs::read_to_string(format!("{}/known_findings.txt", verif_home())).unwrap_or_default();
     for l in text.lines() {
         let l = l.trim();
         if l.is_empty() || l.starts_with('#') || l.starts_with("fixed:") {
@@ -562,7 +564,7 @@ pub fn check_main(args: &[String]) -> i32 {
     viols.sort_by(|a, b| a.class.cmp(&b.class).then(a.run.cmp(&b.run)));
     let mut reported: BTreeMap<String, (u64, String, String)> = BTreeMap::new();
     let mut known_hit: BTreeMap<String, u64> = BTreeMap::new();
-    let dir = format!("{}/replays/{}", VERIF, prop);
+    let dir = format!("{}/replays/{}", verif_home(), prop);
     let _ = std::fs::create_dir_all(&dir);
     for m in &viols {
         if reported.contains_key(&m.class) || known_hit.contains_key(&m.class) {
@@ -589,8 +591,8 @@ pub fn check_main(args: &[String]) -> i32 {
 
     let wall = t0.elapsed().as_secs_f64();
     let evidence = build_evidence(&prop, &tier, seed, total, nw, &stats, &samples, &known_hit, &reported, rechecks.len(), mismatches, wall, &harness_errors);
-    let _ = std::fs::create_dir_all(format!("{}/evidence", VERIF));
-    let ev_path = format!("{}/evidence/{}.json", VERIF, prop);
+    let _ = std::fs::create_dir_all(format!("{}/evidence", verif_home()));
+    let ev_path = format!("{}/evidence/{}.json", verif_home(), prop);
     if let Err(e) = std::fs::write(&ev_path, serde_json::to_string_pretty(&evidence).unwrap()) {
         harness_errors.push(format!("cannot write evidence: {}", e));
     }
